@@ -50,6 +50,13 @@ func (r *Eval) Run(ctx context.Context, script []byte) (Object, *Bytecode, error
 		return nil, nil, err
 	}
 
+	if bytecode.Main.Variadic {
+		// The locals are handed to the VM as arguments one to one: bind the
+		// variadic parameter this fragment declares here, not in VM.Run,
+		// which would collect the fragment's last local instead.
+		r.Locals = bindVariadic(r.Locals, bytecode.Main.NumParams)
+		bytecode.Main.Variadic = false
+	}
 	bytecode.Main.NumParams = bytecode.Main.NumLocals
 	r.Opts.Constants = bytecode.Constants
 	r.fixOpPop(bytecode)
@@ -117,6 +124,30 @@ func (r *Eval) run(ctx context.Context) (ret Object, ran bool, err error) {
 		}
 	}
 	return
+}
+
+// bindVariadic returns args bound to numParams parameters the last of which
+// is variadic: missing fixed parameters are undefined, the remaining arguments
+// are collected in an array.
+func bindVariadic(args []Object, numParams int) []Object {
+	if numParams < 1 {
+		return args
+	}
+	fixed := numParams - 1
+	bound := make([]Object, numParams)
+	for i := 0; i < fixed; i++ {
+		if i < len(args) {
+			bound[i] = args[i]
+		} else {
+			bound[i] = Undefined
+		}
+	}
+	rest := Array{}
+	if len(args) > fixed {
+		rest = append(rest, args[fixed:]...)
+	}
+	bound[fixed] = rest
+	return bound
 }
 
 // fixOpPop changes OpPop and OpReturn Opcodes to force VM to return last value on top of stack.
